@@ -96,10 +96,12 @@ func main() {
 	s.ShardMax = 40
 	s.Known = "c01_known"
 	s.KnownClass = "wide-overhang"
-	nHist := 320
+	sb := hx.NewStream("bytes", "model.RenderTypes model.Render model.RenderCheck model.RenderBytes", "bhcase", "c01_bytes_mismatches", "c01_bytes_violations")
+	sb.ShardMax = 20
+	nHist, nBytes := 320, 120
 	maxRows, maxCols, maxFrames := 5, 10, 9
 	if cfg.Thorough() {
-		nHist, maxRows, maxCols, maxFrames = 12000, 12, 40, 12
+		nHist, nBytes, maxRows, maxCols, maxFrames = 12000, 1500, 12, 40, 12
 	}
 	frames := 0
 	for h := 0; h < nHist; h++ {
@@ -130,6 +132,8 @@ func main() {
 		var fjson []interface{}
 		nf := 2 + r.Intn(maxFrames)
 		wide := false
+		haveCursor, curCol, curRow := false, 0, 0
+		var rawFrames []string
 		for f := 0; f < nf; f++ {
 			win := vx.Window()
 			var ops []string
@@ -138,8 +142,16 @@ func main() {
 			if f == 0 {
 				nops += 3
 			}
+			idle := f > 0 && haveCursor && r.Intn(8) == 0
+			if idle {
+				// an idle frame: nothing but the cursor's shape (or nothing at all) changes
+				nops = r.Intn(2)
+			}
 			for k := 0; k < nops; k++ {
 				sel := r.Intn(12)
+				if idle {
+					sel = 2
+				}
 				if overhang && f == 0 && k == 0 {
 					sel = 11
 				}
@@ -163,6 +175,10 @@ func main() {
 					opsJ = append(opsJ, fmt.Sprintf("Fill(%q)", c.Grapheme))
 				case 2:
 					col, row, st := r.Intn(cols+2)-1, r.Intn(rows+2)-1, r.Intn(7)
+					if idle || (haveCursor && r.Intn(4) == 0) {
+						col, row = curCol, curRow // same place, maybe another shape
+					}
+					haveCursor, curCol, curRow = true, col, row
 					vx.ShowCursor(col, row, vaxis.CursorStyle(st))
 					ops = append(ops, fmt.Sprintf("OShowCursor %s %s %d", hx.Z(int64(col)), hx.Z(int64(row)), st))
 					opsJ = append(opsJ, fmt.Sprintf("ShowCursor(%d,%d,%d)", col, row, st))
@@ -216,10 +232,19 @@ func main() {
 				rows, cols = 1+r.Intn(maxRows), 1+r.Intn(maxCols)
 				fc.SetSize(rows, cols)
 				vx.Resize()
-				vx.Render()
+				byRefresh := r.Intn(2) == 0
+				if byRefresh {
+					vx.Refresh() // a pending size change is consumed by whichever of Render/Refresh comes first
+				} else {
+					vx.Render()
+				}
 				if rows == oldRows && cols == oldCols {
-					// same size as before: Render rendered normally
-					end = "FRender"
+					// same size as before: rendered normally
+					if byRefresh {
+						end = "FRefresh"
+					} else {
+						end = "FRender"
+					}
 				} else {
 					end = fmt.Sprintf("(FResize %d %d)", rows, cols)
 				}
@@ -227,7 +252,9 @@ func main() {
 				vx.Render()
 				end = "FRender"
 			}
-			toks := renderhx.Tokenize(fc.Take())
+			raw := fc.Take()
+			toks := renderhx.Tokenize(raw)
+			rawFrames = append(rawFrames, hx.Bytes(raw))
 			fterms = append(fterms, hx.Tuple(hx.List(ops), end, hx.List(toks)))
 			fjson = append(fjson, map[string]interface{}{"ops": opsJ, "end": end, "tokens": len(toks)})
 			frames++
@@ -242,9 +269,13 @@ func main() {
 		}
 		caseTerm := fmt.Sprintf("Build_hcase %s %d %d %s %s", renderhx.Caps(vx), initRows, initCols, hx.List(wt), hx.List(fterms))
 		hx.WithTimeout(2*time.Second, vx.Close)
+		if h < nBytes {
+			sb.Add(hx.Tuple("("+caseTerm+")", hx.List(rawFrames)), map[string]interface{}{"caps_mask": mask, "rows": initRows, "cols": initCols, "frames": fjson},
+				nf > 2, fmt.Sprintf("frames=%d", nf))
+		}
 		s.Add(caseTerm, map[string]interface{}{"caps_mask": mask, "rows": initRows, "cols": initCols, "frames": fjson, "valid_widths": valid},
 			nf > 2, fmt.Sprintf("frames=%d", nf), fmt.Sprintf("wide=%v", wide), fmt.Sprintf("valid=%v", valid))
 	}
-	cfg.Write("C01", "random frame histories on a real Vaxis over a fake console: sizes 1x1..5x10 (quick) / 12x40 (thorough), random subsets of {sync, explicit width, rgb, styled underlines, unicode core}, cells over narrow/wide/zero-width/multi-codepoint graphemes with measured or explicit widths, styles over default/0-7/8-15/16-255/RGB colours x all attribute masks x 6 underline styles x hyperlinks with params; SetCell/SetStyle/Fill/ShowCursor/HideCursor/SetMouseShape; frames ended by Render, Refresh or a resize. non-trivial = more than two frames",
-		[]*hx.Stream{s}, map[string]interface{}{"frames": frames}, nil)
+	cfg.Write("C01", "random frame histories on a real Vaxis over a fake console: sizes 1x1..5x10 (quick) / 12x40 (thorough), random subsets of {sync, explicit width, rgb, styled underlines, unicode core}, cells over narrow/wide/zero-width/multi-codepoint graphemes with measured or explicit widths, styles over default/0-7/8-15/16-255/RGB colours x all attribute masks x 6 underline styles x hyperlinks with params; SetCell/SetStyle/Fill/ShowCursor/HideCursor/SetMouseShape; frames ended by Render, Refresh or a resize consumed by Render or by Refresh; idle frames in which only the cursor shape changes; for the first histories also the raw bytes of every flush (stream bytes: model tokens serialised = bytes written, parser model reads them as the harness tokenizer did). non-trivial = more than two frames",
+		[]*hx.Stream{s, sb}, map[string]interface{}{"frames": frames}, nil)
 }
